@@ -80,3 +80,11 @@ Example C18_class_witness :
   ds_wf toy (toy_doc " a") /\ KnownClass_C18 toy (toy_doc " a") /\
   ds_decode toy (ds_encode toy (toy_doc " a")) = Some (toy_doc "a").
 Proof. exact (conj (toy_doc_wf " a") (conj toy_doc_in_class toy_doc_trimmed)). Qed.
+
+(** The vocabulary table that is compared with the source on every run (Anchors/AnchorsOK_C18.v)
+    is the vocabulary of the encoder: a document with every optional attribute and element kind
+    is written with exactly the names of the table, and is read back. *)
+Example C18_vocabulary_is_used :
+  same_names (names_of_node (ds_encode toy full_doc)) vocab_names = true /\
+  ds_decode toy (ds_encode toy full_doc) = Some full_doc.
+Proof. exact (conj full_doc_uses_vocab full_doc_roundtrip). Qed.
